@@ -38,7 +38,7 @@ type Profile struct {
 	PublishFaultPct int
 	// CallFaultPct: the same for unary pulls and ModifyAckDeadline calls
 	CallFaultPct int
-	NoTick          bool // no per-statement clock tick (needed when background goroutines use the database)
+	NoTick       bool // no per-statement clock tick (needed when background goroutines use the database)
 }
 
 var attrNames = []string{"a", "b", "kind"}
@@ -854,7 +854,7 @@ func (g *Gen) Drain() {
 	for _, s := range g.allSubs() {
 		for _, d := range s.Dels {
 			if offerable(d, w.now()) && d.why(must, w.now(), w.now()) == "" {
-				p, sig := propForMiss(d)
+				p, sig := propForMiss(d, w.now())
 				w.violate(p, "drain:"+sig, "after %d drain rounds %s is still outstanding in the model and was never offered", rounds, d)
 				w.siblingBlame(d, "drain:"+sig, fmt.Sprintf("never offered again: %s", d))
 			}
